@@ -379,7 +379,10 @@ def _defrag_histories(tier, seed, rng):
     if tier == "thorough":
         while size + big < total - 16640:
             ops.append(rec("P", 22, 0x0303, bytes(big))); size += big
-        # approach the limit with cap-sized records, then cross it
+        # approach the limit (one filler, then cap-sized records), then cross it; every call re-parses the whole
+        # buffer in the model, so the number of calls near 10 MiB is kept small
+        fill = total - size - 3 * 16640 - 1
+        ops.append(rec("P", 22, 0x0303, bytes(fill))); size += fill
         while size + 16640 < total:
             ops.append(rec("P", 22, 0x0303, bytes(16640))); size += 16640
         ops.append(rec("P", 22, 0x0303, bytes(total - size - 1))); size = total - 1   # exactly 10 MiB - 1
@@ -743,6 +746,13 @@ def _ser_cases(tier, rng):
     n = 2500 if tier == "quick" else 40000
     for _ in range(n):
         out.append("@ser msg " + msg())
+    # bodies around the 16-bit boundary: the handshake length is 24 bits wide
+    for size in (65534, 65535, 65536, 65537, 70000):
+        out.append("@ser msg fin,%s" % hx(size))
+        out.append("@ser msg cke,u,%s" % hx(size))
+    big = ".".join(str(rng.randrange(65536)) for _ in range(32767))
+    out.append("@ser msg ch,771,%s,%s,%s,0,N" % (hx(32), hx(32), big))
+    out.append("@ser msg ch,771,%s,N,%s,0,%s" % (hx(32), big, hx(40)))
     for _ in range(n // 3):
         k = rng.randrange(1, 4)
         hs = rng.random() < 0.6
